@@ -746,10 +746,11 @@ package tchannel
 //@   property C04 C20
 
 //@ func (mexset *messageExchangeSet) forwardPeerFrame(frame *Frame) (err error)
-//@   requires MexSetOK(mexset) && MexSetInv(mexset) && own(frame) == 1
+// (no precondition on the table: it is a monitor -- its invariant holds inside
+// the lock -- and exchanges/sets carry structure invariants)
+//@   requires own(frame) == 1
 //@   label queued-frames-are-well-formed
 //@   requires FrameFull(frame) && frame.Header.size >= 16
-//@   requires forall k uint32 :: has(mexset.exchanges, k) ==> mexset.exchanges[k].ctx != nil
 //@   modifies nothing
 //@   property C04 C03 C20
 
